@@ -935,6 +935,21 @@ func (e *Engine) convert(s *State, v Value, from, to types.Type, pos token.Pos) 
 					return x
 				}
 				two := new(big.Int).Mul(hi, big.NewInt(2))
+				// when the path condition bounds the value below 2^(N-1) the conversion is the identity
+				// (confirmed by a `nowrap` obligation)
+				if e.curFn != nil && !e.inInit && len(s.stack) > 0 {
+					bc := &boundCalc{atoms: atomBounds(s.pc), memo: map[*Term]*ival{}}
+					iv := bc.of(x.T)
+					if iv.lo != nil && iv.hi != nil && iv.lo.Sign() >= 0 && iv.hi.Cmp(hi) < 0 {
+						goal := And(Le(Int64C(0), x.T), Lt(x.T, IntC(hi)))
+						if !e.probing {
+							e.emit(s, "nowrap", "", goal, pos, "unsigned to signed conversion keeps the value")
+						} else {
+							s.assume(goal)
+						}
+						return x
+					}
+				}
 				return VInt{Ite(Lt(x.T, IntC(hi)), x.T, Sub(x.T, IntC(two)))}
 			}
 			// signed → signed: widening is the identity, same width too
